@@ -4,6 +4,7 @@ import (
 	"bytes"
 	"context"
 	"fmt"
+	"io"
 	"reflect"
 	"sort"
 	"strings"
@@ -67,6 +68,7 @@ type CaseA struct {
 	Name  string            `json:"name,omitempty"`  // map data only: the key's name when it is not "kv" (names of default template functions)
 	Site  string            `json:"site,omitempty"`  // where the key is read: "" the page (no layouts) | chain-page | chain-mid | chain-outer: the page, the middle or the outer layout of the chain page.vuego -> layouts/post.vuego -> layouts/base.vuego (Have may then contain "lmid" / "louter": the key in the front-matter of the middle / outer layout)
 	Read  string            `json:"read,omitempty"`  // the name the template / Get reads when it is not the key: a CASE VARIANT of the key or of the struct's Go field name, which no source defines
+	Door  string            `json:"door,omitempty"`  // entry point: "" Load.Fill.Assign.Render | renderfile (New.Fill.Assign.RenderFile) | inline-string / inline-byte / inline-reader (Load.Fill.Assign, then the page body through RenderString / RenderByte / RenderReader: the front-matter is on the template's stack) | view (vuego.View(base, page, data).Assign.Render) | vue-render / vue-fragment (vuego.NewVue(fs).Render / RenderFragment(w, page, data): only front-matter and the passed data exist)
 	Loop  bool              `json:"loop,omitempty"`  // the read markup sits inside a v-for instance (<section v-for="zi in zloop">, zloop = [1] given through Assign)
 	After string            `json:"after,omitempty"` // after-failure: a failing, colliding render runs first: pool (on a fresh engine) | engine (on a sibling template of the same engine) | template (inline, on the very template object)
 	Pad   int               `json:"pad,omitempty"`   // the page's front-matter also has a neighbour key whose value is a single line of this many characters
@@ -577,6 +579,19 @@ func (c CaseA) body() string {
 		case "attr":
 			fmt.Fprintf(&b, `<p data-m="v1" :data-x="%s">x</p>`, p[1])
 		}
+		if c.VType == "map" && (c.Pos == "attr" || c.Pos == "vif") {
+			// sub-keys that only a LOSING source's map has: the winning map replaces the whole
+			// value, so they are absent here too
+			for _, s := range srcs {
+				if s != wsrc && !isZero(c.Vals[s]) {
+					if c.Pos == "attr" {
+						fmt.Fprintf(&b, `<p data-m="ol-%s" :data-x="%s.only%s">x</p>`, s, k, s)
+					} else {
+						fmt.Fprintf(&b, `<b data-m="has-%s" v-if="%s.only%s">x</b>`, s, k, s)
+					}
+				}
+			}
+		}
 	case any && isNull(wv):
 		// the chosen value is null: plain reads print nothing recognisable, expression reads must
 		// see the same null (falsy, equal to nil, equal to no other source's value)
@@ -791,10 +806,11 @@ func checkA(c CaseA) error {
 	}
 	k := c.key()
 	wsrc, wv, any := c.winner()
-	fsys, err := buildFS(c.files(), c.Store, []string{k})
+	fsys, cleanup, err := buildFS(c.files(), c.Store, []string{k})
 	if err != nil {
 		return err
 	}
+	defer cleanup()
 
 	var base vuego.Template
 	if c.Ctor == "withfs" {
@@ -802,16 +818,65 @@ func checkA(c CaseA) error {
 	} else {
 		base = vuego.NewFS(fsys)
 	}
-	tpl := base.Load("page.vuego")
+	// the data handed to Fill / View / Vue.Render (nil: none)
+	var arg interface{}
 	switch {
 	case c.has("fill"):
-		arg, err := c.fillArg(c.Vals["fill"])
+		a, err := c.fillArg(c.Vals["fill"])
 		if err != nil {
 			return err
 		}
-		tpl = tpl.Fill(arg)
+		arg = a
 	case c.Decoy:
-		tpl = tpl.Fill(c.decoyFill())
+		arg = c.decoyFill()
+	}
+	switch c.Door {
+	case "", "renderfile", "inline-string", "inline-byte", "inline-reader", "view":
+	case "vue-render", "vue-fragment":
+		for _, s := range c.Have {
+			if s != "fm" && s != "fill" {
+				return fmt.Errorf("malformed case: Vue.Render knows only front-matter and the passed data, not %q", s)
+			}
+		}
+		if c.Decoy {
+			return fmt.Errorf("malformed case: no decoys with Vue.Render")
+		}
+	default:
+		return fmt.Errorf("malformed case: door %q", c.Door)
+	}
+	if c.Pos == "get" && c.Door != "" && c.Door != "view" {
+		return fmt.Errorf("malformed case: Get belongs to the Load / View doors")
+	}
+	var tpl vuego.Template
+	switch c.Door {
+	case "renderfile":
+		tpl = base.New() // Fill / Assign on the parent, RenderFile loads the page from it
+	case "view":
+		tpl = vuego.View(base, "page.vuego", arg)
+	default:
+		tpl = base.Load("page.vuego")
+	}
+	if arg != nil && c.Door != "view" {
+		tpl = tpl.Fill(arg)
+	}
+	pageBody := c.body()
+	render := func(w io.Writer) error {
+		ctx := context.Background()
+		switch c.Door {
+		case "renderfile":
+			return tpl.RenderFile(ctx, w, "page.vuego")
+		case "inline-string":
+			return tpl.RenderString(ctx, w, pageBody)
+		case "inline-byte":
+			return tpl.RenderByte(ctx, w, []byte(pageBody))
+		case "inline-reader":
+			return tpl.RenderReader(ctx, w, strings.NewReader(pageBody))
+		case "vue-render":
+			return vuego.NewVue(fsys).Render(w, "page.vuego", arg)
+		case "vue-fragment":
+			return vuego.NewVue(fsys).RenderFragment(w, "page.vuego", arg)
+		}
+		return tpl.Render(ctx, w)
 	}
 	switch {
 	case c.has("assign"):
@@ -894,7 +959,7 @@ func checkA(c CaseA) error {
 		}
 
 		var out bytes.Buffer
-		if err := tpl.Render(context.Background(), &out); err != nil {
+		if err := render(&out); err != nil {
 			if !any {
 				return nil // an undefined variable in an expression: unspecified
 			}
@@ -910,6 +975,9 @@ func checkA(c CaseA) error {
 		byID := map[string][]hx.Marker{}
 		var hits []string
 		for _, m := range hx.Markers(nodes) {
+			if strings.HasPrefix(m.ID, "has-") {
+				return fmt.Errorf("render (vif): %s: v-if on the sub-key that only the losing source %q has rendered; the winning map replaces the whole value", desc, strings.TrimPrefix(m.ID, "has-"))
+			}
 			byID[m.ID] = append(byID[m.ID], m)
 			if strings.HasPrefix(m.ID, "is-") {
 				hits = append(hits, m.ID)
@@ -1108,6 +1176,36 @@ func enumA(f func(c CaseA, excluded string) bool) {
 		for i, s := range order {
 			if mask&(1<<i) != 0 {
 				have = append(have, s)
+			}
+		}
+		// entry points other than Load.Fill.Assign.Render, with scalar and nested-map values
+		for _, door := range []string{"renderfile", "inline-string", "inline-byte", "inline-reader", "view", "vue-render", "vue-fragment"} {
+			vue := strings.HasPrefix(door, "vue-")
+			if vue && mask&^0b101 != 0 {
+				continue // Vue.Render: only front-matter (bit 0) and the passed data (bit 2)
+			}
+			for _, vt := range []string{"string", "map"} {
+				vs := map[string]vals.V{}
+				for _, s := range have {
+					vs[s] = canon(vt, s, 0)
+				}
+				for _, fm := range [][2]string{{"map", "key"}, {"struct", "tag"}, {"ptr", "name"}} {
+					if !vue && !run.Thorough() && fm[0] != "map" && (mask+len(door))%2 == 1 {
+						continue // quick: struct carriers on a rotating half of the patterns
+					}
+					for _, pos := range positions {
+						if len(have) == 0 && pos == "expr" {
+							continue
+						}
+						if pos == "get" && door != "view" {
+							continue
+						}
+						c := CaseA{Have: have, Vals: vs, VType: vt, Ctor: "newfs", Fill: fm[0], Addr: fm[1], Pos: pos, Door: door}
+						if !f(c, excludedA(known, c)) {
+							return
+						}
+					}
+				}
 			}
 		}
 		// read positions inside a v-for instance, alone and after a failed colliding render
@@ -1434,6 +1532,14 @@ func classifyA(c CaseA) (bool, []string) {
 	if c.Name != "" {
 		cls = append(cls, "key-named-like-a-template-function")
 	}
+	if c.Door != "" {
+		cls = append(cls, "door="+c.Door)
+		if c.VType == "map" && len(c.Have) >= 2 {
+			cls = append(cls, "nested-map-shadowing-through-another-door")
+		}
+	} else {
+		cls = append(cls, "door=Load.Fill.Assign.Render")
+	}
 	if c.Loop {
 		cls = append(cls, "read-inside-a-v-for-instance")
 	}
@@ -1458,7 +1564,9 @@ func classifyA(c CaseA) (bool, []string) {
 			cls = append(cls, "case-variant-of-a-filled-struct-field")
 		}
 	}
-	if c.Store != "" {
+	if c.Store == "dirfs" || c.Store == "dirfs-symlink" || c.Store == "sub" {
+		cls = append(cls, "store="+c.Store)
+	} else if c.Store != "" {
 		cls = append(cls, "store=overlay/"+c.Store)
 		if c.has("da") || c.has("db") {
 			cls = append(cls, "overlay-with-data-files-defining-the-key")
